@@ -22,7 +22,7 @@ LOOKUP_METHODS = {"get", "pop", "setdefault", "__getitem__"}
 DIGEST_WORDS = ("signature", "canonical", "hash", "smiles", "digest", "fingerprint")
 
 
-def all_roots(defs, expr: ast.AST, limit: int = 200) -> List[ast.AST]:
+def all_roots(defs, expr: ast.AST, limit: int = 200, through_copies: bool = True) -> List[ast.AST]:
     out: List[ast.AST] = []
     seen = set()
     work = [expr]
@@ -66,9 +66,15 @@ def all_roots(defs, expr: ast.AST, limit: int = 200) -> List[ast.AST]:
         elif isinstance(e, ast.DictComp):
             work += [e.key, e.value] + [g.iter for g in e.generators]
         elif isinstance(e, ast.Call) and call_name(e) in COPIES and e.args and not isinstance(e.func, ast.Attribute):
-            work.append(e.args[0])
+            if through_copies or call_name(e) not in ("deepcopy", "copy", "dict", "list", "set"):
+                work.append(e.args[0])
+            else:
+                out.append(e)
         elif isinstance(e, ast.Call) and isinstance(e.func, ast.Attribute) and e.func.attr in ("copy", "items", "values", "keys") and not e.args:
-            work.append(e.func.value)
+            if through_copies or e.func.attr != "copy":
+                work.append(e.func.value)
+            else:
+                out.append(e)
         elif isinstance(e, ast.NamedExpr):
             work.append(e.value)
         else:
